@@ -110,7 +110,7 @@ struct Prog
 			if (rng.coin()) net.in_spec[ad].push_back(q(lossy && rng.coin()));
 		}
 		net.def_net.push_back(q(lossy));
-		if (rich && rng.coin(1, 3)) net.nat_ext[addrs[0]] = addr("66.6.6.6");
+		if (rng.coin(1, 3)) net.nat_ext[addrs[0]] = addr("66.6.6.6"); // the capture must still show the true addresses
 		net.log = &log;
 		NameEntry ne; ne.lat_ns = 7000000; ne.addrs = {addrs[1]}; net.names["peer.test"] = ne;
 		sim.reset(new sim::simulation(net));
@@ -332,9 +332,13 @@ void check_capture(Prog& p)
 		if (c.sport != e.from_port)
 			r.violation("C19", "source-port", who + fmt(": source port %u, sender is bound to %u", unsigned(c.sport), unsigned(e.from_port)));
 		// addresses: true source (the probe sits before any NAT) and destination
+		// (the probe's own view of the source cannot be used: a re-sent segment still carries the address a NAT
+		// wrote into it on its first trip; the true endpoints are the sockets' bound endpoints)
 		bool src_ok = false;
-		for (auto const& ad : p.addrs) if (ep_hash(ip::udp::endpoint(ad, c.sport)) == e.from && v4(ad) == c.src) src_ok = true;
-		if (!src_ok) r.violation("C19", "source-address", who + ": source address is not the sender's");
+		if (c.proto == 17) { for (auto const& u : p.udps) if (v4(u->ep.address()) == c.src && u->ep.port() == c.sport) src_ok = true; }
+		else for (auto const& cn : p.conns)
+			if ((v4(cn->sep.address()) == c.src && cn->sep.port() == c.sport) || (v4(cn->cep.address()) == c.src && cn->cep.port() == c.sport)) src_ok = true;
+		if (!src_ok) r.violation("C19", "source-address", who + ": source address/port is not a bound endpoint of the sender");
 		bool dst_ok = false;
 		if (c.proto == 17) { for (auto const& u : p.udps) if (v4(u->ep.address()) == c.dst && u->ep.port() == c.dport) dst_ok = true; }
 		else for (auto const& cn : p.conns)
